@@ -333,6 +333,26 @@ func runPlan(res *core.Result, r *rand.Rand, lp *linkPair, dir wire.Dir, p plan,
 	if !(link.IsClosing() || len(to.Inst.PeeringV.GetLinks()) == 0) {
 		wire.WaitIdle(lp.w, dir, 30*time.Second)
 	}
+	rev := wire.AtoB
+	if dir == wire.AtoB {
+		rev = wire.BtoA
+	}
+	if p.kind == "reflect" && allOut {
+		// hand the sender its own link frames back (first, the chosen one, the last one)
+		mu.Lock()
+		var back [][]byte
+		for _, i := range []int{0, p.at, len(history) - 1} {
+			if i >= 0 && i < len(history) {
+				back = append(back, history[i])
+			}
+		}
+		mu.Unlock()
+		for _, m := range back {
+			lp.w.Inject(rev, m)
+		}
+		faultDone = len(back) > 0
+		wire.WaitIdle(lp.w, rev, 30*time.Second)
+	}
 	time.Sleep(2 * time.Millisecond)
 	wit := map[string]any{"plan": p.String(), "direction": dir.String(), "frames": n + tail, "case_id": p.String() + "|" + dir.String()}
 	if pa := to.PanicAlerts(); len(pa) > 0 {
@@ -342,6 +362,16 @@ func runPlan(res *core.Result, r *rand.Rand, lp *linkPair, dir wire.Dir, p plan,
 	if pa := from.PanicAlerts(); len(pa) > 0 {
 		res.Violate("link-writer-panic:"+p.kind, fmt.Sprintf("%s %s: a link worker of the sender panicked: %s", p, dir, pa[0]), wit)
 		return false
+	}
+	if p.kind == "reflect" {
+		// nothing was sent towards the sender in this run: whatever its frame handler gets is a reflected frame
+		select {
+		case f := <-from.Upstream:
+			d, _ := f.FrameDataWithMargins(0, 0)
+			res.Violate("reflected-frame-delivered", fmt.Sprintf("%s %s: a link frame handed back to its own sender was accepted there and a %d-byte frame reached the sender's frame handler", p, dir, len(d)), wit)
+			return false
+		default:
+		}
 	}
 	// collect deliveries
 	delivered := map[int]int{}
@@ -473,6 +503,7 @@ func genPlans(r *rand.Rand, quick bool) []plan {
 		ps = append(ps, plan{kind: "hold", at: 3, distance: d, field: "whole-frame"})
 	}
 	ps = append(ps, plan{kind: "replay", at: 0, distance: 250, field: "whole-frame"})
+	ps = append(ps, plan{kind: "reflect", at: 5, field: "whole-frame"}, plan{kind: "reflect", at: 11, field: "whole-frame"})
 	for _, d := range []int{2, 3, 62, 63, 64, 65, 66, 128} {
 		ps = append(ps, plan{kind: "gap-replay", at: 4, distance: d, field: "whole-frame"})
 	}
